@@ -127,6 +127,26 @@ def gen_cases(pid, rng, n, nsched):
     return cases
 
 
+# Per-step structure comparison (`opt stepsnap`): concrun prints `s <tree>` (the canonical
+# rendering of the `final` line) before every scheduling decision and the Lean driver does the
+# same for the configuration in which the decision is taken, so the tie compares the WHOLE
+# structure after every scheduler step, which pins the order of the writes relative to the
+# parks. Share: every hand-written case (corpus, catalogues; dfs cases print the lines only for
+# the runs they emit) up to STEPSNAP_MAX_PRE prefix operations, and every
+# STEPSNAP_RANDOM_EVERY[tier]-th random case (an `s` line is ~0.8 kB, 4x the rest of a step's
+# lines; the thorough tier has 33x the runs, hence the smaller share there).
+STEPSNAP_MAX_PRE = 150
+STEPSNAP_RANDOM_EVERY = {"quick": 4, "thorough": 16}
+
+
+def with_stepsnap(case_lines):
+    return [case_lines[0], "opt stepsnap"] + case_lines[1:]
+
+
+def modest(case_lines):
+    return sum(1 for l in case_lines if l.startswith("pre ")) <= STEPSNAP_MAX_PRE
+
+
 def has_cursor(case_lines):
     return any(l.startswith("thread") and " ns " in l for l in case_lines)
 
@@ -185,7 +205,11 @@ def _check(pid, tier, sc, t0, sink=None):
         tie_broken.append(dict(kind="extracted-facts", detail=facts["problems"][:6]))
     ncases, nsched = {"quick": (900, 16), "thorough": (12000, 40)}[tier]
     corpus = load_corpus(pid)
-    cases = corpus + genconc.catalogue() + genconc.scaled_catalogue(full=(tier == "thorough")) + genconc.tall_catalogue(sizes=((9, 13, 17) if tier == "quick" else (9, 13, 17, 27, 41))) + genconc.spine_cases(nsched=(3 if tier == "quick" else 12)) + gen_cases(pid, rng, ncases, nsched)
+    fixed = corpus + genconc.catalogue() + genconc.scaled_catalogue(full=(tier == "thorough")) + genconc.tall_catalogue(sizes=((9, 13, 17) if tier == "quick" else (9, 13, 17, 27, 41))) + genconc.spine_cases(nsched=(3 if tier == "quick" else 12))
+    rnd = gen_cases(pid, rng, ncases, nsched)
+    # the selection draws nothing from rng: the cases are the same with and without it
+    cases = [with_stepsnap(c) if modest(c) else c for c in fixed] + \
+            [with_stepsnap(c) if i % STEPSNAP_RANDOM_EVERY[tier] == 0 else c for i, c in enumerate(rnd)]
     runs, dfs, errs = run_parallel(bindir, sc, "main", cases)
     violations, known_hits = [], {}
     for e in errs:
@@ -225,9 +249,11 @@ def _check(pid, tier, sc, t0, sink=None):
         print("VIOLATION property=%s replay=%s no-failing-input-found" % (pid, p))
         nviol += 1
         rc = 1
-    distinct = len({vlib.trace_hash(r["lines"]) for r in runs if any(l.startswith("a ") for l in r["lines"])})
+    # (the per-step structure lines are left out of the hash: the count stays comparable)
+    distinct = len({vlib.trace_hash([l for l in r["lines"] if not l.startswith("s ")]) for r in runs if any(l.startswith("a ") for l in r["lines"])})
     stats = dict(runs=len(runs), cases=len(cases), dfs=dfs[:20],
                  threads={}, with_cursor=sum(1 for c in cases if has_cursor(c)),
+                 stepsnap_cases=sum(1 for c in cases if "opt stepsnap" in c),
                  steps=sum(len(r["sched"].split()) for r in runs),
                  lockorder_states_checked=sum(int(l.split()[3]) for r in runs for l in r["lines"] if l.startswith("# lockorder states")))
     for c in cases:
@@ -241,7 +267,9 @@ def _check(pid, tier, sc, t0, sink=None):
                theorems=proof["theorems"], evaluations=len(runs), distinct_nontrivial=distinct,
                rule="executions = (client programs x schedules) on the shadow copy under the deterministic scheduler; non-trivial = at least one lock acquisition; distinct = distinct SHA-1 of the canonical event log",
                samples=samples, traces_validated_against_impl=tie.get("compared", 0),
-               disagreements_checked=tie.get("mismatches", 0), distribution=stats,
+               disagreements_checked=tie.get("mismatches", 0),
+               stepsnap_runs_compared=tie.get("stepsnap_runs", 0), stepsnap_lines_compared=tie.get("stepsnap_lines_compared", 0),
+               distribution=stats,
                model_configurations_ranked=tie.get("ranked_states", 0), model_configurations_unranked=tie.get("unranked_states", 0),
                known_findings=sorted(known_hits), proof_problems=proof["problems"])
     assumptions = ["interleavings at lock-acquisition granularity are complete for race-free code (Go memory model, DRF-SC): assumed, not proved in Lean",
